@@ -298,7 +298,7 @@ impl Prop for C05 {
         }
         // stopping point
         let (stop, window, extra): (f64, f64, Option<f64>) = match s.status {
-            Status::Success => (sc.xend, 1.000001e-12 + 8.0 * EPS * sc.xend.abs(), None),
+            Status::Success => (sc.xend, 1.000001e-12 + 2.0 * EPS * sc.xend.abs(), None),
             Status::UserInterrupt => {
                 // the event point is the final entry
                 let tl = match s.t.last() {
@@ -317,8 +317,8 @@ impl Prop for C05 {
                 (tl, 4e-12 + 8.0 * EPS * tl.abs(), Some(tl))
             }
             _ => match s.sol_span() {
-                Some((_, b)) => (b, 1.000001e-12 + 8.0 * EPS * b.abs(), None),
-                None => (sc.x0, 1.000001e-12 + 8.0 * EPS * sc.x0.abs(), None),
+                Some((_, b)) => (b, 1.000001e-12 + 2.0 * EPS * b.abs(), None),
+                None => (sc.x0, 1.000001e-12 + 2.0 * EPS * sc.x0.abs(), None),
             },
         };
         // reference model
@@ -328,8 +328,12 @@ impl Prop for C05 {
         for (i, &tau) in te.iter().enumerate() {
             let d = (stop - tau) * dir;
             let same = pos < got.len() && got[pos].to_bits() == tau.to_bits();
-            if d > window {
-                // clearly not beyond the stopping point: must be reported
+            // the stopping point itself is known exactly (xend / last accepted abscissa / event
+            // time): a requested time not beyond it is due; only times *beyond* it by at most the
+            // handler's matching slack are optional. (A terminal event point replaces a requested
+            // time that coincides with it.)
+            if d > 0.0 || (d == 0.0 && extra.is_none()) {
+                // not beyond the stopping point: must be reported
                 if same {
                     pos += 1;
                 } else {
